@@ -401,10 +401,51 @@ fn crafted_failures(r: &mut Runner, filter: bool, t: bool) {
     }
 }
 
+/// Schedule perturbation of the real solver threads: a crafted build (first attempt failing by duplicate
+/// signature / unsolvable shard, or succeeding) is run once per
+/// event index (0..48, thorough 0..150) with the thread raising that event held for 25 ms. Every run must give the right result and
+/// every event log must be accepted by the protocol model. This is a systematic one-delay sweep, not an
+/// exhaustive exploration: the OS still schedules the threads.
+fn perturbed_schedules(r: &mut Runner, t: bool) {
+    let d = Cfg::default();
+    let scenarios: Vec<(usize, u64, Cfg)> = vec![
+        (200_000, 1, Cfg { threads: 2, check_dups: true, ..d.clone() }),
+        (200_000, 1, Cfg { threads: 2, ..d.clone() }),
+        (200_000, 0, Cfg { threads: 3, ..d.clone() }),
+        (200_000, 1, Cfg { threads: 8, check_dups: true, ..d.clone() }),
+        (100_001, 1, Cfg { threads: 1, check_dups: true, ..d.clone() }),
+    ];
+    for (si, (n, pairs, cfg)) in scenarios.into_iter().enumerate() {
+        if !t && (si == 2 || si == 4) {
+            continue;
+        }
+        // a build over 4 shards raises about 25 events per attempt: indices beyond the actual count delay nothing
+        // (a fixed number keeps the case numbering identical in every worker process)
+        let m = if t { 150 } else { 48 };
+        for i in 0..m {
+            DELAY_AT.store(i, std::sync::atomic::Ordering::SeqCst);
+            EVENT_NO.store(0, std::sync::atomic::Ordering::SeqCst);
+            let c2 = cfg.clone();
+            crafted_case!(r, false, &format!("u8,Box<[u8]>,[u64;2],FuseLge3Shards held-at-event-{i}"), n, pairs, &c2, W = u8, D = Box<[u8]>, S = [u64; 2], E = FuseLge3Shards);
+            r.ctx.count("perturbed_schedule_runs");
+        }
+        DELAY_AT.store(usize::MAX, std::sync::atomic::Ordering::SeqCst);
+    }
+}
+
 /// Event log of the par_solve hooks (one build at a time per process).
 static EVENTS: std::sync::Mutex<Vec<(&'static str, usize, usize)>> = std::sync::Mutex::new(Vec::new());
+/// Index (in order of arrival) of the protocol event at which the thread raising it is held for a while;
+/// usize::MAX = none. Holding one thread at one protocol point lets the others run ahead: a one-deviation
+/// perturbation of the schedule of the real, otherwise uncontrolled, solver threads.
+static DELAY_AT: std::sync::atomic::AtomicUsize = std::sync::atomic::AtomicUsize::new(usize::MAX);
+static EVENT_NO: std::sync::atomic::AtomicUsize = std::sync::atomic::AtomicUsize::new(0);
 fn on_event(site: &'static str, a: usize, b: usize) {
     EVENTS.lock().unwrap().push((site, a, b));
+    let i = EVENT_NO.fetch_add(1, std::sync::atomic::Ordering::SeqCst);
+    if i == DELAY_AT.load(std::sync::atomic::Ordering::SeqCst) {
+        std::thread::sleep(std::time::Duration::from_millis(25));
+    }
 }
 
 struct Runner<'a> {
@@ -894,12 +935,16 @@ fn main() {
     }
     let t = ctx.thorough();
     let mut r = Runner { ctx: &mut ctx, prop: prop.clone(), traces };
-    if prop == "C07" {
+    if r.ctx.opt("family") == Some("perturbed") {
+        // (used by C17, relabelled: the failing-attempt protocol under perturbed schedules)
+        perturbed_schedules(&mut r, t);
+    } else if prop == "C07" {
         hang_probes(&mut r);
         funcs(&mut r, t);
         seed_sweep(&mut r, false, t);
         crafted_failures(&mut r, false, t);
         very_large(&mut r, t);
+        perturbed_schedules(&mut r, t);
     } else {
         crafted_failures(&mut r, true, t);
         filters(&mut r, t);
